@@ -77,7 +77,7 @@ def poly_bits(rf, bits):
     return worst + (math.ceil(math.log2(tot)) if tot > 1 else 0)
 
 
-def run(ctx):
+def _run(ctx):
     P = ctx.P
     a1 = ctx.inst("C20.A1", "abort-site closure of Receive -> WithdrawLiquidity arm -> withdraw handler -> transfer constructor: every site is in an allowed category", floor=12)
     a1n = ctx.inst("C20.A1N", "numeric aborts on the path are discharged: zero divisor only for S (>= a >= 1), every bounded product fits (<= an input or 10^18)", floor=3)
@@ -141,6 +141,21 @@ def run(ctx):
             else:
                 a1.fail("C20.A1:%s:%s:%s" % (f.path, kind, (generic_path(detail) if kind == "propagated" else detail)[:80]), f.path, where,
                         "%s: a new way to fail on the withdraw path — %s %s — is not in the table of aborts that cannot fire for an entitled holder" % (role, kind, detail[:160]))
+    # ---- the arm itself: the handler call is conditioned on nothing but "hook decodes to WithdrawLiquidity" and
+    #      "the caller is the LP token" — any further condition (a whitelist, a flag, a threshold) can refuse an entitled holder
+    info_i = param(recv, INFO_TY)
+    lp_guard = "eq(canon(%s), load(%s).liquidity_token) is [True]" % (P_(recv, info_i, ".sender"), ctx.N.PAIR_INFO)
+    for c in common.control_conditions(P, recv, callbb):
+        cs_ = lemmas.cond_strings(ctx, [c])
+        txt = sorted(cs_)[0] if cs_ else "?"
+        cd = c["cond"]
+        if cd[0] == "discr" and (c["allowed"] in (["Continue"], ["Ok"]) or "WithdrawLiquidity" in c["allowed"]):
+            continue     # `?` propagation (classified above) and the decode / variant match
+        if txt == lp_guard:
+            a1.site("receive: LP-token-only guard [guard] at %s" % common.span_of_block_term(recv, c["sw"]).split("/")[-1])
+            continue
+        a1.fail("C20.A1:extra-condition:%s" % txt[:120], recv.path, common.span_of_block_term(recv, c["sw"]),
+                "the withdraw arm is additionally conditioned on {%s}: a holder of LP tokens for whom it is false is refused" % txt[:240])
     # ---- numeric aborts -------------------------------------------------------------------------------------------
     for cb, why in wd.problems:
         a1n.fail("C20.A1N:shape", w.path, common.span_of_block_term(w, cb), why)
@@ -216,3 +231,9 @@ def run(ctx):
         numeric.run_obligation(n1, "C20.N1", w, T, X - RF(1), "asset %d: x - 1 >= 0 given r*a/S = r/10^18 + 2 + w" % k, subst=cert)
     ctx.assumptions.append("the bank / cw20 contracts accept the resulting non-zero transfers and the burn; KF1 (C01) can drain an ask reserve to zero, which is outside this property's precondition")
     ctx.assumptions.append("precondition used for discharging numeric aborts: 1 <= a <= S (the holder burns at most the supply); reserves, amounts and supply are below 2^128")
+
+
+def run(ctx):
+    from .. import numeric
+    _run(ctx)
+    numeric.arith_base(ctx, "C20.B1")
